@@ -37,7 +37,7 @@ ALL_CMP = sorted(CMP)
 FEW_CMP = ["<", "in", "is not"]
 ASTOR_CLASS = "astor-fallback-unfaithful"
 FINDINGS = ["equal-precedence-right-operand", "singleton-tuple-comma", "subscript-tuple-index", "slice-bound-tuple",
-            ASTOR_CLASS]
+            ASTOR_CLASS, "nonfinite-float-as-name", "string-annotation-no-parent"]
 
 
 def kids_of(t: Dict[str, Any]) -> List[Dict[str, Any]]:
@@ -101,6 +101,8 @@ def to_ast(t: Dict[str, Any]) -> Any:
         return (ast.ListComp if k == "ListComp" else ast.GeneratorExp)(sub[0], [comp])
     if k == "FStr":
         return ast.JoinedStr([ast.FormattedValue(sub[0], -1, None), ast.Constant("x")])
+    if k == "Quoted":                       # part of an annotation written as a string: what it means
+        return sub[0]
     raise MachineryError(f"unknown node kind {k}")
 
 
@@ -132,18 +134,19 @@ class _Norm(ast.NodeTransformer):
         node.values = vals
         return node
 
-    def visit_Constant(self, node: ast.Constant) -> Any:       # numeric formatting: repr of a non-finite float
-        v = node.value
-        if isinstance(v, float) and v in (float("inf"),):
-            return ast.Name("inf", ast.Load())
-        if isinstance(v, complex) and v.imag == float("inf") and v.real == 0:
-            return ast.Name("infj", ast.Load())
-        return node
+
+def _fields_copy(node: Any) -> Any:
+    """Copy of an AST over its _fields only.  (copy.deepcopy would follow the `parent` attributes pydoctor's Parentage
+    leaves on nodes - also on the Load() instance that ast.parse shares between all trees - into whole modules.)"""
+    if isinstance(node, ast.AST):
+        return type(node)(**{f: _fields_copy(getattr(node, f, None)) for f in node._fields})
+    if isinstance(node, list):
+        return [_fields_copy(x) for x in node]
+    return node
 
 
 def canon(e: ast.AST) -> str:
-    import copy
-    return ast.dump(_Norm().visit(copy.deepcopy(e)))
+    return ast.dump(_Norm().visit(_fields_copy(e)))
 
 
 def parse_expr(src: str) -> Optional[ast.expr]:
@@ -171,8 +174,15 @@ def shown_inline(e: ast.AST) -> Tuple[str, bool, List[str]]:
 
 
 def astor_text(e: ast.AST) -> str:
-    import astor
-    return astor.to_source(e).strip()
+    """The environment function of the specs: the text pydoctor obtains for a sub-tree it does not render itself, i.e.
+    what the real _colorize_ast_generic emits for that sub-tree alone, with no limits (astor.to_source with whatever
+    options pydoctor passes; '??' if astor has no handler)."""
+    from pydoctor.epydoc.markup import _pyval_repr as P
+    from pydoctor import node2stan
+    col = P.PyvalColorizer(linelen=None, maxlines=0, linebreakok=True)
+    st = P._ColorizerState()
+    col._colorize_ast_generic(e, st)
+    return "".join(node2stan.gettext(st.result))
 
 
 def model_text(rec: Dict[str, Any]) -> Tuple[str, bool]:
@@ -213,7 +223,7 @@ def astor_unfaithful(rec: Dict[str, Any]) -> List[str]:
                 ok = same_expr("x[" + txt + "]", ast.Subscript(ast.Name("x", ast.Load()), mk_ast(st), ast.Load()))[0]
             else:
                 ok = same_expr(txt, mk_ast(st))[0]
-            if not ok and "\n" not in txt:
+            if not ok:
                 out.append(tok[1:])
     return out
 
@@ -230,14 +240,16 @@ def check_astor_table(ctx: Ctx) -> None:
 
 
 # --------------------------------------------------------------------------------------- the cases
-def expr_cfg(mode: str, cmp_used: List[str], open_ids: List[str], fixed_ids: List[str]) -> str:
+def expr_cfg(mode: str, cmp_used: List[str], open_ids: List[str], fixed_ids: List[str],
+             ann_ops: Tuple[str, ...] = ()) -> str:
     return (f'SPECIFICATION Spec\nCONSTANTS Mode = "{mode}"\n          CmpUsed = {tla(set(cmp_used))}\n'
+            f'          AnnOps = {tla(set(ann_ops))}\n'
             f'          Open = {tla(set(open_ids))}\n          Fixed = {tla(set(fixed_ids))}\n'
             'CONSTRAINT Emit\nINVARIANT DesignKnown\n')
 
 
 PROBES = {"equal-precedence-right-operand": "a-(b-c)", "singleton-tuple-comma": "(a,)",
-          "subscript-tuple-index": "x[()]", "slice-bound-tuple": "x[(a,):b]"}
+          "subscript-tuple-index": "x[()]", "slice-bound-tuple": "x[(a,):b]", "nonfinite-float-as-name": "1e999"}
 LIT_PROBES = {"bytes-single-quote": b"'", "str-nul-dropped": "\0"}
 
 
@@ -255,6 +267,10 @@ def finding_status() -> Tuple[List[str], List[str]]:
         e = ast.parse(src, mode="eval").body
         if same_expr(shown_inline(ast.parse(src, mode="eval").body)[0], e)[0]:
             fixed.add(fid)
+    if quoted_probe_fixed():
+        fixed.add("string-annotation-no-parent")
+    if shared_probe_fixed():
+        fixed.add(SHARED_FINDING)
     for fid, val in LIT_PROBES.items():
         got = literal_value(shown_pyval(ast.Constant(val), 0, 0, False)[0])
         if type(got) is type(val) and got == val:
@@ -263,14 +279,16 @@ def finding_status() -> Tuple[List[str], List[str]]:
     return open_ids, sorted(fixed)
 
 
-def judge_tree(ctx: Ctx, rec: Dict[str, Any], origin: str, stats: Dict[str, int]) -> None:
-    """One enumerated tree: validate the reference, run the real colorizer, verdict + drift."""
+def judge_tree(ctx: Ctx, rec: Dict[str, Any], origin: str, stats: Dict[str, int],
+               real: Optional[Tuple[str, bool]] = None) -> None:
+    """One enumerated tree: validate the reference, run the real colorizer, verdict + drift.
+    `real` = (shown, is_complete) when the text was obtained another way (annotations: through the real builder)."""
     tree = rec["t"]
     want = mk_ast(tree)
     ref_src = "".join(rec["ref"])
     # (a) the reference against CPython
     got = parse_expr(ref_src)
-    if got is None or ast.dump(got) != ast.dump(want):
+    if got is None or (real is None and ast.dump(got) != ast.dump(want)):
         raise MachineryError(f"Expr.tla!Required is unsound: reference text {ref_src!r} does not parse back to {tree}")
     nopar = "".join(rec.get("nopar") or [])
     if nopar and nopar != ref_src:
@@ -279,7 +297,7 @@ def judge_tree(ctx: Ctx, rec: Dict[str, Any], origin: str, stats: Dict[str, int]
         if g2 is not None and ast.dump(g2) == ast.dump(want):
             raise MachineryError(f"Expr.tla!Required demands parentheses that Python does not need: {ref_src!r} vs {nopar!r}")
     # (b) the real code
-    shown, complete, warns = shown_inline(mk_ast(tree))
+    shown, complete = real if real is not None else shown_inline(mk_ast(tree))[:2]
     ctx.traces += 1
     model, model_complete = model_text(rec)
     drift = shown != model or complete != model_complete
@@ -325,16 +343,58 @@ def kf_matcher(fid: str, open_ids: List[str]):
     return match
 
 
+# --------------------------------------------------------------- annotations partly written as strings
+def shown_annotations(sources: List[str]) -> List[Tuple[str, bool]]:
+    """Build ONE module `v<n>: <annotation> = 0` with the real builder (which parses the quoted parts:
+    astutils.unstring_annotation) and colorize each variable's annotation the way type2stan does."""
+    from pydoctor import model
+    from pydoctor.epydoc.markup._pyval_repr import colorize_inline_pyval
+    from pydoctor import node2stan
+    system = model.System()
+    system.options.verbosity = -3
+    builder = system.systemBuilder(system)
+    builder.addModuleString("".join(f"v{n}: {src} = 0\n" for n, src in enumerate(sources)), modname="annmod")
+    builder.buildModules()
+    mod = system.allobjects["annmod"]
+    out = []
+    for n, src in enumerate(sources):
+        attr = mod.contents.get(f"v{n}")
+        if attr is None or getattr(attr, "annotation", None) is None:
+            raise MachineryError(f"the builder kept no annotation for v{n}: {src}")
+        d = colorize_inline_pyval(attr.annotation)
+        out.append(("".join(node2stan.gettext(d.to_node())), d.is_complete))
+    return out
+
+
+def quoted_probe_fixed() -> bool:
+    shown, complete = shown_annotations(['"a|b" & c'])[0]
+    return same_expr(shown, ast.parse("(a|b) & c", mode="eval").body)[0]
+
+
 # ------------------------------------------------------------------------- string / bytes literals
 SYM = {"sq": "'", "dq": '"', "bs": "\\", "nl": "\n", "tab": "\t", "cr": "\r", "ff": "\f", "vt": "\v", "nul": "\0",
-       "esc": "\x1b", "uni": "\xe9", "sur": "\ud800"}
-STR_ALPHABET = ["a", " ", "sq", "dq", "bs", "nl", "tab", "cr", "ff", "vt", "nul", "esc", "uni", "sur"]
-BYTES_ALPHABET = ["a", " ", "sq", "dq", "bs", "nl", "tab", "cr", "nul", "esc", "uni"]
+       "esc": "\x1b", "soh": "\x01", "uni": "\xe9", "sur": "\ud800"}
+# quick alphabets; "1" and "b" are hexadecimal digits (what follows a \xNN escape matters), soh / esc / nul are C0 controls
+STR_ALPHABET = ["a", "b", "1", " ", "sq", "dq", "bs", "nl", "cr", "nul", "esc", "soh", "uni", "sur"]
+STR_ALPHABET_MORE = ["tab", "ff", "vt", "&"]
+BYTES_ALPHABET = ["a", "1", " ", "sq", "dq", "bs", "nl", "tab", "cr", "nul", "esc", "uni"]
+C0_SYMBOLS = {"nul", "esc", "soh", "vt"}
 STR_FINDINGS = ["str-nul-dropped", "bytes-single-quote"]
 
 
 def sym_text(seq: List[str]) -> str:
-    return "".join(SYM.get(x, x) for x in seq)
+    # "xNN" is ExprStr.tla's generic symbol for the code point NN
+    return "".join(SYM.get(x) or (chr(int(x[1:], 16)) if len(x) == 3 and x[0] == "x" else x) for x in seq)
+
+
+def shown_html(e: Any, lbok: bool) -> str:
+    """The value as it reaches the page: to_stan() (docutils HTML -> stanutils.html2stan), flattened to HTML, and the
+    text of that HTML."""
+    from pydoctor.epydoc.markup._pyval_repr import colorize_pyval
+    from pydoctor.stanutils import flatten, flatten_text, html2stan
+    from pydoctor.test import NotFoundLinker
+    d = colorize_pyval(e, linelen=0, maxlines=0, linebreakok=lbok)
+    return flatten_text(html2stan(flatten(d.to_stan(NotFoundLinker()))))
 
 
 def shown_pyval(e: Any, linelen: int, maxlines: int, lbok: bool) -> Tuple[str, bool]:
@@ -354,12 +414,17 @@ def literal_value(text: str) -> Any:
 _INVALID = object()
 
 
-def run_strings(ctx: Ctx, open_ids: List[str], fixed_ids: List[str], stats: Dict[str, int]) -> None:
+def strings_cfg(ctx: Ctx, open_ids: List[str], fixed_ids: List[str]) -> str:
     maxlen = 3 if ctx.quick else 4
-    cfg = (f"SPECIFICATION Spec\nCONSTANTS StrAlphabet = {tla(set(STR_ALPHABET))}\n"
-           f"          BytesAlphabet = {tla(set(BYTES_ALPHABET))}\n          MaxLen = {maxlen}\n"
-           f"          Open = {tla(set(open_ids))}\n          Fixed = {tla(set(fixed_ids))}\n"
-           "CONSTRAINT Emit\nINVARIANT DesignKnown\n")
+    str_alphabet = STR_ALPHABET if ctx.quick else STR_ALPHABET + STR_ALPHABET_MORE
+    return (f"SPECIFICATION Spec\nCONSTANTS StrAlphabet = {tla(set(str_alphabet))}\n"
+            f"          BytesAlphabet = {tla(set(BYTES_ALPHABET))}\n          MaxLen = {maxlen}\n"
+            f"          Open = {tla(set(open_ids))}\n          Fixed = {tla(set(fixed_ids))}\n"
+            "CONSTRAINT Emit\nINVARIANT DesignKnown\n")
+
+
+def run_strings(ctx: Ctx, open_ids: List[str], fixed_ids: List[str], stats: Dict[str, int]) -> None:
+    cfg = strings_cfg(ctx, open_ids, fixed_ids)
     r = ctx.tlc("ExprStr", cfg, workers="auto", extra=["-continue"], timeout=900)
     if r.errors or (r.rc != 0 and not r.violated):
         raise MachineryError(f"TLC failed on ExprStr: {r.errors[:3]}\n" + "\n".join(r.out.splitlines()[-25:]))
@@ -388,6 +453,33 @@ def run_strings(ctx: Ctx, open_ids: List[str], fixed_ids: List[str], stats: Dict
         got = literal_value(shown)
         ok = complete and type(got) is type(value) and got == value
         classes = sorted(rec["cls"])
+        # second observation point: the text of the HTML written for the value
+        vsyms = list(rec["val"])
+        # (quick: every value up to 2 characters - a control character followed by a hex digit / another character /
+        # the end; thorough: also every longer value containing a C0 control character)
+        if ok and (len(vsyms) <= 2 or (not ctx.quick and len(vsyms) <= 3 and any(c in C0_SYMBOLS for c in vsyms))):
+            hmodel = sym_text(list(rec["html"]))
+            hdec = rec["dech"]
+            href: Any = _INVALID if list(hdec) == ["INVALID"] else (
+                sym_text(list(hdec)).encode("latin-1") if by else sym_text(list(hdec)))
+            hpy = literal_value(hmodel)
+            if not (hpy is href or (type(hpy) is type(href) and hpy == href)):
+                raise MachineryError(f"ExprStr.tla!PyDecode disagrees with ast.literal_eval on {hmodel!r}: {href!r} vs {hpy!r}")
+            hshown = shown_html(ast.Constant(value), lbok)
+            stats["strings_html"] += 1
+            hdrift = hshown != hmodel
+            if hdrift:
+                stats["drift"] += 1
+                ctx.drift_note({"value": repr(value), "lbok": lbok, "html_model": hmodel, "html_real": hshown})
+            hgot = literal_value(hshown)
+            if not (type(hgot) is type(value) and hgot == value):
+                stats["violations"] += 1
+                ctx.violation({"invariant": "LiteralValue", "origin": "literal-html", "input": repr(value), "linebreakok": lbok,
+                               "observed": {"shown": hshown, "is_complete": complete, "colorizer_text": shown,
+                                            "reads_back_as": "not a literal" if hgot is _INVALID else repr(hgot)},
+                               "expected": "ast.literal_eval(text of the rendered HTML) == value",
+                               "design_classes": classes, "model_text": hmodel, "drift": hdrift,
+                               "key": f"lit-html:{classes}:{[c for c in vsyms if c in C0_SYMBOLS]}:{hgot is _INVALID}"})
         if not ok:
             stats["violations"] += 1
             vk = f"literal:{'+'.join(classes) or 'UNEXPLAINED'}:{'drift' if drift else 'as-modelled'}"
@@ -541,7 +633,8 @@ def layout_cfg(source: str, maxll: int, maxml: int, fixed_ids: List[str], extra_
             f'          SegMax = {segmax}\n          ColMax = {colmax}\n'
             f'          Fixed = {tla(set(fixed_ids))}\nCONSTRAINT Emit\n'
             + ("INVARIANT DesignMarked\n" if source == "enum" else "")
-            + ("INVARIANT DesignOrderKept\n" if source == "segs" else ""))
+            + ("INVARIANT DesignOrderKept\n" if source == "segs" else "")
+            + ("INVARIANT HistoryIndependent\n" if source == "hist" else ""))
 
 
 def real_output(ll: int, ml: int, col: int, text: str) -> Tuple[str, int, int, str]:
@@ -561,10 +654,19 @@ def real_output(ll: int, ml: int, col: int, text: str) -> Tuple[str, int, int, s
     return "".join(node2stan.gettext(st.result)), st.charpos, st.lineno, exc
 
 
+def segs_cfg(ctx: Ctx, fixed_ids: List[str]) -> str:
+    ll, segmax, colmax = (6, 5, 3) if ctx.quick else (8, 6, 4)
+    return layout_cfg("segs", ll, 2, fixed_ids, segmax=segmax, colmax=colmax)
+
+
+def hist_cfg(ctx: Ctx, fixed_ids: List[str]) -> str:
+    maxll, maxml = (12, 2) if ctx.quick else (16, 3)
+    return layout_cfg("hist", maxll, maxml, fixed_ids)
+
+
 def run_segments(ctx: Ctx, fixed_ids: List[str], stats: Dict[str, int]) -> None:
     """ExprLayout.tla, Source = "segs": every (linelen, maxlines, starting column, <= 3 line lengths)."""
-    ll, segmax, colmax = (6, 5, 3) if ctx.quick else (8, 6, 4)
-    r = ctx.tlc("ExprLayout", layout_cfg("segs", ll, 2, fixed_ids, segmax=segmax, colmax=colmax), workers="auto",
+    r = ctx.tlc("ExprLayout", segs_cfg(ctx, fixed_ids), workers="auto",
                 extra=["-continue"], env={"LAYOUT_FILE": "/nonexistent"}, timeout=900)
     errs = [e for e in r.errors if "The behavior up to this point is" not in e]
     if errs or (r.rc != 0 and not r.violated):
@@ -594,20 +696,22 @@ def run_segments(ctx: Ctx, fixed_ids: List[str], stats: Dict[str, int]) -> None:
             ctx.sample({"text": text, "linelen": rec["ll"], "col": rec["col"], "shown": out})
 
 
-def run_layout(ctx: Ctx, rng: random.Random, fixed_ids: List[str], stats: Dict[str, int]) -> None:
-    maxll, maxml = (12, 3) if ctx.quick else (24, 4)
-    extra_ll = (40, 80)
+def layout_bounds(ctx: Ctx) -> Tuple[int, int, Tuple[int, ...]]:
+    return (12, 3, (40, 80)) if ctx.quick else (24, 4, (40, 80))
+
+
+def layout_sources(ctx: Ctx, rng: random.Random) -> List[str]:
     sources = list(LAYOUT_SOURCES) + list(LAYOUT_LONG_SOURCES)
-    if not all("\n" in astor_text(ast.parse(sx, mode="eval").body.elts[1] if sx.startswith("[start")
-                                  else ast.parse(sx, mode="eval").body) or "dict(" in sx or sx.startswith("f(k=")
-               for sx in LAYOUT_LONG_SOURCES):
-        ctx.notes.append("astor no longer breaks the long layout sources across lines: multi-line _output not exercised "
-                         "through values (still through Source = segs)")
     want = 30 if ctx.quick else 74
     while len(sources) < want:
         src = gen_layout_source(rng, rng.choice([2, 3]))
         if len(src) <= 70 and src not in sources:
             sources.append(src)
+    return sources
+
+
+def run_layout(ctx: Ctx, sources: List[str], fixed_ids: List[str], stats: Dict[str, int]) -> None:
+    maxll, maxml, extra_ll = layout_bounds(ctx)
     asts = [ast.parse(sx, mode="eval").body for sx in sources]
     trees = [layout_tree(e) for e in asts]
     f = ctx.scratch / "layout_trees.json"
@@ -702,6 +806,75 @@ def run_layout(ctx: Ctx, rng: random.Random, fixed_ids: List[str], stats: Dict[s
     ctx.extra["layout_sources"] = len(sources)
 
 
+# ----------------------------------------------------------------------- history: shared class-level nodes
+SHARED_FINDING = "shared-linewrap-mutated"
+PROBE_VALUE = 1234567890
+
+
+def reset_shared_nodes() -> None:
+    """Harness hygiene: give PyvalColorizer a fresh LINEWRAP node (a previous case may have emptied the shared one)."""
+    from docutils import nodes
+    from pydoctor.epydoc.markup._pyval_repr import PyvalColorizer as C
+    C.LINEWRAP = nodes.inline('', chr(8629), classes=[C.LINEWRAP_TAG])
+
+
+def probe_text() -> str:
+    return shown_pyval(ast.Constant(PROBE_VALUE), 4, 0, True)[0]
+
+
+def shared_probe_fixed() -> bool:
+    reset_shared_nodes()
+    clean = probe_text()
+    shown_pyval(ast.parse("(12345678901234567890+b)*c", mode="eval").body, 12, 1, False)
+    after = probe_text()
+    reset_shared_nodes()
+    return after == clean
+
+
+def run_history(ctx: Ctx, sources: List[str], trees_file: Any, fixed_ids: List[str], open_ids: List[str],
+                stats: Dict[str, int]) -> None:
+    """ExprLayout.tla, Source = "hist": a value rendered with linebreakok = False and a line length, then an unrelated
+    probe in the same process.  What the probe shows must not depend on the first rendering."""
+    r = ctx.tlc("ExprLayout", hist_cfg(ctx, fixed_ids), workers="auto", extra=["-continue"],
+                env={"LAYOUT_FILE": str(trees_file)}, timeout=900, coverage=False)
+    errs = [e for e in r.errors if "The behavior up to this point is" not in e]
+    if errs or (r.rc != 0 and not r.violated):
+        raise MachineryError(f"TLC failed on ExprLayout(hist): {errs[:3]}\n" + "\n".join(r.out.splitlines()[-25:]))
+    ctx.extra["history_design_level_invariants_violated"] = sorted(set(r.violated))
+    reset_shared_nodes()
+    clean = probe_text()
+    for rec in r.printed:
+        src = sources[rec["ti"] - 1]
+        reset_shared_nodes()
+        shown, complete = shown_pyval(ast.parse(src, mode="eval").body, rec["ll"], rec["ml"], False)
+        after = probe_text()
+        ctx.traces += 1
+        stats["histories"] += 1
+        m_text = "".join(L_SYM.get(x, x) for x in rec["text"])
+        m_probe = "".join(L_SYM.get(x, x) for x in rec["probe"])
+        drift = (shown, complete, after) != (m_text, rec["complete"], m_probe)
+        if drift:
+            stats["drift"] += 1
+            ctx.drift_note({"source": src, "linelen": rec["ll"], "maxlines": rec["ml"],
+                            "model": [m_text, rec["complete"], m_probe], "real": [shown, complete, after]})
+        if after != clean:
+            stats["violations"] += 1
+            stats["histories_poisoned"] += 1
+            ctx.violation({"invariant": "HistoryIndependent", "origin": "history", "input": src, "linelen": rec["ll"],
+                           "maxlines": rec["ml"], "observed": {"first": shown, "probe_after": after, "probe_clean": clean},
+                           "expected": "the probe shows the same text whatever was rendered before",
+                           "design_classes": [SHARED_FINDING] if not rec["wrapok"] else [], "drift": drift,
+                           "key": f"hist:{'' if not rec['wrapok'] and not drift else src + str(rec['ll'])}"})
+    reset_shared_nodes()
+
+
+def kf_history(open_ids: List[str]):
+    def match(w: Dict[str, Any]) -> bool:
+        return (w.get("invariant") == "HistoryIndependent" and not w.get("drift")
+                and w.get("design_classes") == [SHARED_FINDING] and SHARED_FINDING in open_ids)
+    return match
+
+
 # ------------------------------------------------------------------------------ random deeper trees
 def gen_tree(rng: random.Random, depth: int) -> Dict[str, Any]:
     N = lambda k, op, kids: {"k": k, "op": op, "kids": kids}
@@ -761,6 +934,47 @@ def gen_tree(rng: random.Random, depth: int) -> Dict[str, Any]:
 
 
 # ------------------------------------------------------------------------------------------- check
+class Prefetch:
+    """The TLC runs whose input is known at the start (all but the one that judges observed outputs) are started
+    together (a JVM start costs seconds) and consumed where the sequential code asks for them: ctx.tlc is replaced by a
+    look-up keyed by (module, cfg text, environment) that falls back to a normal run."""
+
+    def __init__(self, ctx: Ctx):
+        from concurrent.futures import ThreadPoolExecutor
+        self.ctx, self.orig, self.futs = ctx, ctx.tlc, {}
+        self.pool = ThreadPoolExecutor(max_workers=6)
+        ctx.spec_dir()
+        ctx.tlc = self                                     # type: ignore[method-assign]
+
+    @staticmethod
+    def key(module: str, cfg: str, env: Optional[Dict[str, str]]) -> Any:
+        return (module, cfg, tuple(sorted((env or {}).items())))
+
+    def submit(self, module: str, cfg: str, **kw: Any) -> None:
+        from ..core import run_tlc
+        kw = {k: v for k, v in kw.items() if k != "count"}
+        kw["workers"] = 4
+        self.futs[self.key(module, cfg, kw.get("env"))] = self.pool.submit(run_tlc, self.ctx.scratch, module, cfg, **kw)
+
+    def __call__(self, module: str, cfg: str, **kw: Any) -> Any:
+        fut = self.futs.pop(self.key(module, cfg, kw.get("env")), None)
+        if fut is None:
+            return self.orig(module, cfg, **kw)
+        r = fut.result()
+        if kw.get("count", True):
+            self.ctx.states += r.distinct
+            self.ctx.transitions += r.generated
+        self.ctx.tlc_runs.append({"module": module, **r.summary()})
+        return r
+
+    def close(self) -> None:
+        for k, fut in self.futs.items():
+            fut.cancel()
+            self.ctx.notes.append(f"prefetched TLC run never asked for: {k[0]} {k[1][:60]!r}")
+        self.pool.shutdown(wait=False)
+        self.ctx.tlc = self.orig                           # type: ignore[method-assign]
+
+
 def run(ctx: Ctx) -> int:
     rng = random.Random(ctx.seed)
     open_ids, fixed_ids = finding_status()
@@ -768,14 +982,45 @@ def run(ctx: Ctx) -> int:
         ctx.register_matcher(fid, kf_matcher(fid, open_ids))
     for fid in STR_FINDINGS:
         ctx.register_matcher(fid, kf_literal(fid, open_ids))
+    ctx.register_matcher(SHARED_FINDING, kf_history(open_ids))
     check_astor_table(ctx)
     stats = {k: 0 for k in ("seen", "drift", "design_bad", "violations", "incomplete", "necessity_checked",
                             "design_bad_but_real_ok", "strings", "layout", "layout_complete", "layout_wrapped",
-                            "layout_cut", "layout_multiline_text", "segments", "segments_wrapped")}
+                            "layout_cut", "layout_multiline_text", "segments", "segments_wrapped",
+                            "strings_html", "histories", "histories_poisoned")}
     design_violated: List[str] = []
+    # ---- inputs that do not depend on the code under test, then all TLC runs that only need those
+    ntrees = 1500 if ctx.quick else 30000
+    trees = [gen_tree(rng, rng.choice([3, 4, 5])) for _ in range(ntrees)]
+    tree_files = []
+    for bi, batch in enumerate(chunks(trees, 5000)):
+        f = ctx.scratch / f"trees_{bi}.json"
+        f.write_text(json.dumps(list(batch)))
+        tree_files.append(f)
+    lsources = layout_sources(ctx, rng)
+    (ctx.scratch / "layout_trees.json").write_text(json.dumps([layout_tree(ast.parse(sx, mode="eval").body) for sx in lsources]))
+    hf = ctx.scratch / "hist_trees.json"
+    hf.write_text(json.dumps([layout_tree(ast.parse(sx, mode="eval").body) for sx in LAYOUT_SOURCES]))
+    ann_cmp = ["<"] if ctx.quick else FEW_CMP
+    ann_ops = ("+", "|", "**") if ctx.quick else ("+", "*", "|", "**", "<<")
+    d3_cmp = FEW_CMP if ctx.quick else ALL_CMP
+    pre = Prefetch(ctx)
+    ex = dict(extra=["-continue"], timeout=900)
+    pre.submit("Expr", expr_cfg("d2", ALL_CMP, open_ids, fixed_ids), **ex)
+    pre.submit("Expr", expr_cfg("d3", d3_cmp, open_ids, fixed_ids), **ex)
+    for f in tree_files:
+        pre.submit("Expr", expr_cfg("file", ALL_CMP, open_ids, fixed_ids), env={"CASE_FILE": str(f)}, **ex)
+    pre.submit("Expr", expr_cfg("ann", ann_cmp, open_ids, fixed_ids, ann_ops), **ex)
+    pre.submit("ExprStr", strings_cfg(ctx, open_ids, fixed_ids), **ex)
+    maxll, maxml, extra_ll = layout_bounds(ctx)
+    pre.submit("ExprLayout", layout_cfg("enum", maxll, maxml, fixed_ids, extra_ll),
+               env={"LAYOUT_FILE": str(ctx.scratch / "layout_trees.json")}, **ex)
+    pre.submit("ExprLayout", segs_cfg(ctx, fixed_ids), env={"LAYOUT_FILE": "/nonexistent"}, **ex)
+    pre.submit("ExprLayout", hist_cfg(ctx, fixed_ids), env={"LAYOUT_FILE": str(hf)}, **ex)
 
-    def tlc_cases(mode: str, cmp_used: List[str], env: Optional[Dict[str, str]] = None) -> List[Dict[str, Any]]:
-        r = ctx.tlc("Expr", expr_cfg(mode, cmp_used, open_ids, fixed_ids), workers="auto", env=env,
+    def tlc_cases(mode: str, cmp_used: List[str], env: Optional[Dict[str, str]] = None,
+                  ann_ops: Tuple[str, ...] = ()) -> List[Dict[str, Any]]:
+        r = ctx.tlc("Expr", expr_cfg(mode, cmp_used, open_ids, fixed_ids, ann_ops), workers="auto", env=env,
                     extra=["-continue"], timeout=900, coverage=False)
         if r.errors or (r.rc != 0 and not r.violated):
             raise MachineryError(f"TLC failed on Expr ({mode}): {r.errors[:3]}\n" + "\n".join(r.out.splitlines()[-25:]))
@@ -790,27 +1035,32 @@ def run(ctx: Ctx) -> int:
         judge_tree(ctx, rec, "d2", stats)
     ctx.extra["depth2_trees"] = len(d2)
     # ---- every depth-3 operator chain
-    d3 = tlc_cases("d3", FEW_CMP if ctx.quick else ALL_CMP)
+    d3 = tlc_cases("d3", d3_cmp)
     for rec in d3:
         judge_tree(ctx, rec, "d3", stats)
     ctx.extra["depth3_chains"] = len(d3)
     ctx.exhaustive = True
     # ---- random deeper trees, reference and transcription recomputed by TLC
-    ntrees = 1500 if ctx.quick else 30000
-    trees = [gen_tree(rng, rng.choice([3, 4, 5])) for _ in range(ntrees)]
     nfile = 0
-    for batch in chunks(trees, 5000):
-        f = ctx.scratch / "trees.json"
-        f.write_text(json.dumps(list(batch)))
+    for f in tree_files:
         for rec in tlc_cases("file", ALL_CMP, env={"CASE_FILE": str(f)}):
             judge_tree(ctx, rec, "random", stats)
             nfile += 1
     ctx.extra["random_deeper_trees"] = nfile
+    # ---- annotations with a quoted part: source -> real builder (unstring_annotation) -> colorizer
+    ann = tlc_cases("ann", ann_cmp, ann_ops=ann_ops)
+    shown_ann = shown_annotations(["".join(rec["ref"]) for rec in ann])
+    for rec, real in zip(ann, shown_ann):
+        judge_tree(ctx, rec, "annotation", stats, real=real)
+    ctx.extra["annotations_with_quoted_part"] = len(ann)
     # ---- string / bytes literals (ExprStr.tla)
     run_strings(ctx, open_ids, fixed_ids, stats)
     # ---- line length / line count: wrapping, truncation, is_complete (ExprLayout.tla)
-    run_layout(ctx, rng, fixed_ids, stats)
+    run_layout(ctx, lsources, fixed_ids, stats)
     run_segments(ctx, fixed_ids, stats)
+    # ---- history: what one representation leaves behind for the next (shared class-level nodes)
+    run_history(ctx, list(LAYOUT_SOURCES), hf, fixed_ids, open_ids, stats)
+    pre.close()
     ctx.extra["expr_stats"] = stats
     ctx.extra["design_level_invariants_violated"] = design_violated
     ctx.extra["known_finding_ids"] = {"open": open_ids, "fixed": fixed_ids}
@@ -819,7 +1069,7 @@ def run(ctx: Ctx) -> int:
         "await, walrus, attribute of a non-name) are an environment function: not modelled, but every shown text "
         "including astor's part is parsed back",
         "the regular-expression colouriser (re.compile(...) calls) is a different mechanism and not covered",
-        "documented spellings: quote style, str() of numbers (1e999 is shown as inf), set([...]) for set displays, "
+        "documented spellings: quote style, str() of finite numbers, set([...]) for set displays, "
         "redundant parentheses, nested same-operator and/or flattened",
     ]
     return ctx.finish(
@@ -836,10 +1086,17 @@ def replay(ctx: Ctx, path: str) -> int:
     bad = False
     if w.get("invariant") == "RoundTrip" and "tree" in w:
         want = mk_ast(w["tree"])
-        shown, complete, _ = shown_inline(mk_ast(w["tree"]))
+        shown, complete = (shown_annotations([w["input"]])[0] if w.get("origin") == "annotation"
+                           else shown_inline(mk_ast(w["tree"]))[:2])
         ok, why = same_expr(shown, want) if complete else (shown.endswith("..."), "cut without marker")
         print(f"replay: input {w['input']!r} shown {shown!r} ->", "holds now" if ok else f"still violated ({why})")
         bad = not ok
+    elif w.get("invariant") == "LiteralValue" and w.get("origin") == "literal-html":
+        value = ast.literal_eval(w["input"])
+        shown = shown_html(ast.Constant(value), w["linebreakok"])
+        got = literal_value(shown)
+        bad = not (type(got) is type(value) and got == value)
+        print(f"replay: value {w['input']} in the rendered HTML {shown!r} ->", "still violated" if bad else "holds now")
     elif w.get("invariant") == "LiteralValue":
         value = ast.literal_eval(w["input"])
         shown, complete = shown_pyval(ast.Constant(value), 0, 0, w["linebreakok"])
